@@ -13,7 +13,10 @@ RULE = ("generated programs of the F77/F90 subset fparser1 supports (program/sub
         "statement carried over (Lean-computed normeq of each printed statement with its source statement); co-simulation: the "
         "nesting computed by the Lean model Fp.One.nest1 over independently classified lines == the real nesting (or the same "
         "error line/block). non-trivial = accepted source with >= 2 nested blocks")
-ASSUMPTIONS = ["fparser1's per-statement regex parsers are leaves: their text is compared, not modelled"]
+ASSUMPTIONS = ["fparser1's per-statement regex parsers are leaves: their text is compared, not modelled",
+               "equivalent spellings fparser1 normalises count as unchanged text: `REWIND 10` / `REWIND (10)` (also ENDFILE, BACKSPACE), "
+               "`CHARACTER*8` / `CHARACTER*(*)` / `CHARACTER(LEN=…)`, the optional comma in front of a `/name/` group of COMMON and NAMELIST",
+               "a statement fparser1 does not accept (its own parse error) is outside the premise and only counted"]
 TIE_MODULES = ["FparserModel.One", "FparserModel.Norm", "FparserModel.One2", "FparserModel.Generated.One2Tables", "FparserModel.Proofs.One2Generated"]
 
 
@@ -78,7 +81,69 @@ def analyze_case(src, isfree, res, case):
         pass
 
 
+def _canon1(line):
+    """equivalent spellings fparser1 normalises (stated in ASSUMPTIONS): the unit of a file
+    positioning statement in parentheses, `CHARACTER*n` as `CHARACTER(LEN=n)`, the optional
+    comma in front of a `/name/` group of COMMON / NAMELIST"""
+    l = line
+    l = re.sub(r"(?i)^(\s*(?:\d+\s+)?(?:endfile|backspace|rewind))\s+(\w+)\s*$", r"\1 (\2)", l)
+    l = re.sub(r"(?i)^(\s*(?:\d+\s+)?character)\s*\*\s*(\d+)", r"\1(LEN=\2)", l)
+    l = re.sub(r"(?i)^(\s*(?:\d+\s+)?character)\s*\*\s*\(([^()]*)\)", r"\1(LEN=\2)", l)
+    if re.match(r"(?i)^\s*(\d+\s+)?(common|namelist)\b", l):
+        l = re.sub(r",\s*/", " /", l)
+    return l
+
+
+def run_zoo(case):
+    """single statements of every kind the program generator knows (USE lists, declarations,
+    specification statements, I/O, actions, FORMAT), each inside a subroutine, through fparser1:
+    printed statement == source statement (token oracle Fp.Norm.normeq) and fixpoint"""
+    from fv import gen
+    m = get_model()
+    res = {"key": ["zoo", case["seed"]], "counts": {}, "findings": [], "nontrivial": True, "keys": []}
+    g = gen.G(random.Random(case["seed"]), std="f2003", max_depth=1)
+    zoo = [g.use_stmt()[0] for _ in range(8)] + [g.type_decl()[0] for _ in range(6)]
+    zoo += [x for x in (g.spec_misc() for _ in range(10)) if isinstance(x, gen.St)]
+    zoo += [g.io_stmt() for _ in range(6)] + [g.action() for _ in range(10)] + [g.format_stmt() for _ in range(2)]
+    n = 0
+    for st in zoo:
+        if not isinstance(st, gen.St):
+            continue
+        line = st.text()
+        kind = util.stmt_kind(line)
+        src = "subroutine s\n  %s\nend subroutine s\n" % line
+        rp = {"case": case, "source": src, "isfree": True}
+        tree, err = CN.parse1(src, True)
+        n += 1
+        if tree is None:
+            if isinstance(err, tuple):
+                res["counts"]["zoo-not-accepted:" + kind] = res["counts"].get("zoo-not-accepted:" + kind, 0) + 1
+            else:
+                res["findings"].append({"signature": "fparser1-escape:" + str(err)[:40], "what": "fparser1 raised %s for %r" % (str(err)[:120], line), "replay": rp})
+            continue
+        res["keys"].append(line)
+        res["counts"]["zoo:" + kind] = res["counts"].get("zoo:" + kind, 0) + 1
+        printed = [l for l in str(tree).split("\n")[1:] if l.strip()]
+        if len(printed) != 3:
+            res["findings"].append({"signature": "statement-count-changed:" + kind, "what": "fparser1 printed %r for %r" % (printed, line), "replay": rp})
+            continue
+        r = m.ask("normeq", _canon1(line) + "\n", _canon1(printed[1]) + "\n")
+        if r[0] != "eq":
+            known = findings.classify("C19", line, {"printed": printed[1], "isfree": True})
+            res["findings"].append({"signature": known or ("statement-text-changed:" + kind),
+                                    "what": "fparser1 printed %r for %r" % (printed[1].strip()[:120], line.strip()[:120]), "replay": rp})
+            continue
+        s1 = str(tree)
+        t2, e2 = CN.parse1("\n".join(s1.split("\n")[1:]) + "\n", True)
+        if t2 is None or CN.body1(str(t2), True) != CN.body1(s1, True):
+            res["findings"].append({"signature": "roundtrip-unstable:" + kind, "what": "fparser1 output %r does not round-trip" % printed[1].strip()[:120], "replay": rp})
+    res["evals"] = n
+    return res
+
+
 def run_case(case):
+    if case.get("kind") == "zoo":
+        return run_zoo(case)
     rng = random.Random(case["seed"])
     m = get_model()
     res = {"key": ["c19", case["seed"]], "counts": {}, "findings": [], "nontrivial": True}
@@ -158,7 +223,9 @@ def run_case(case):
 
 def cases(tier, seed):
     nb = util.tier_n(tier, 16, 160)
-    return [{"seed": s, "n": 40, "_timeout": 900, "analyze": i == 0} for i, s in enumerate(util.seeds(seed, nb, 19))]
+    out = [{"seed": s, "n": 40, "_timeout": 900, "analyze": i == 0} for i, s in enumerate(util.seeds(seed, nb, 19))]
+    out += [{"kind": "zoo", "seed": s, "_timeout": 900} for s in util.seeds(seed, util.tier_n(tier, 24, 240), 191)]
+    return out
 
 
 def run(tier, rep, st):
